@@ -3,6 +3,7 @@ package stablecomp
 import (
 	"fmt"
 	"regexp"
+	"sort"
 	"strconv"
 	"strings"
 	"testing"
@@ -116,12 +117,195 @@ func diffSCI(got, want *descriptorpb.SourceCodeInfo) (string, string) {
 }
 
 func compileSCI(src map[string]string, name string) (*descriptorpb.SourceCodeInfo, *gen.Outcome) {
+	fd, out := compileFD(src, name)
+	if fd == nil {
+		return nil, out
+	}
+	return fd.GetSourceCodeInfo(), out
+}
+
+func compileFD(src map[string]string, name string) (*descriptorpb.FileDescriptorProto, *gen.Outcome) {
 	out := gen.Compile(src, []string{name}, gen.Opts{SourceInfo: protocompile.SourceInfoStandard})
 	if !out.OK() {
 		return nil, out
 	}
-	fd := gen.AllProtos(out.Files)[name]
-	return fd.GetSourceCodeInfo(), out
+	return gen.AllProtos(out.Files)[name], out
+}
+
+// spanText returns the source text a location covers.
+func spanText(lines []string, sp []int32) (string, bool) {
+	var sl, sc, el, ec int
+	switch len(sp) {
+	case 3:
+		sl, sc, el, ec = int(sp[0]), int(sp[1]), int(sp[0]), int(sp[2])
+	case 4:
+		sl, sc, el, ec = int(sp[0]), int(sp[1]), int(sp[2]), int(sp[3])
+	default:
+		return "", false
+	}
+	if sl < 0 || el >= len(lines) || sl > el {
+		return "", false
+	}
+	if sl == el {
+		if sc > ec || ec > len(lines[sl]) {
+			return "", false
+		}
+		return lines[sl][sc:ec], true
+	}
+	if sc > len(lines[sl]) || ec > len(lines[el]) {
+		return "", false
+	}
+	parts := []string{lines[sl][sc:]}
+	parts = append(parts, lines[sl+1:el]...)
+	parts = append(parts, lines[el][:ec])
+	return strings.Join(parts, "\n"), true
+}
+
+// checkNameSpans is an oracle that does not depend on the compiler's own uncommented output: the
+// location at <path of an element>+[name] must cover exactly the token that spells the element's
+// name, and the location at +[number] the token that spells its number (generated sources are
+// ASCII without tabs, so columns are byte offsets). It returns "" or the first discrepancy.
+func checkNameSpans(fd *descriptorpb.FileDescriptorProto, text string) string {
+	lines := strings.Split(text, "\n")
+	byPath := map[string][]*descriptorpb.SourceCodeInfo_Location{}
+	for _, l := range fd.GetSourceCodeInfo().GetLocation() {
+		k := pathStr(l.Path)
+		byPath[k] = append(byPath[k], l)
+	}
+	var bad string
+	fail := func(format string, a ...any) {
+		if bad == "" {
+			bad = fmt.Sprintf(format, a...)
+		}
+	}
+	one := func(path []int32, what string) *descriptorpb.SourceCodeInfo_Location {
+		ls := byPath[pathStr(path)]
+		if len(ls) == 0 {
+			fail("%s: no location with path [%s]", what, pathStr(path))
+			return nil
+		}
+		return ls[0]
+	}
+	name := func(path []int32, field int32, want, what string, fold bool) {
+		l := one(append(append([]int32{}, path...), field), what+" name")
+		if l == nil {
+			return
+		}
+		got, ok := spanText(lines, l.Span)
+		if !ok {
+			fail("%s: name span %v outside the file", what, l.Span)
+			return
+		}
+		if got != want && !(fold && strings.EqualFold(got, want)) {
+			fail("%s: location [%s,%d] covers %q, the element is named %q", what, pathStr(path), field, got, want)
+		}
+	}
+	number := func(path []int32, field int32, want int64, what string) {
+		l := one(append(append([]int32{}, path...), field), what+" number")
+		if l == nil {
+			return
+		}
+		got, ok := spanText(lines, l.Span)
+		if !ok {
+			fail("%s: number span %v outside the file", what, l.Span)
+			return
+		}
+		v, err := strconv.ParseInt(strings.ReplaceAll(got, " ", ""), 0, 64)
+		if err != nil || v != want {
+			fail("%s: location [%s,%d] covers %q, the element's number is %d", what, pathStr(path), field, got, want)
+		}
+	}
+	field := func(path []int32, f *descriptorpb.FieldDescriptorProto, what string) {
+		if one(path, what) == nil {
+			return
+		}
+		grp := f.GetType() == descriptorpb.FieldDescriptorProto_TYPE_GROUP
+		name(path, 1, f.GetName(), what, grp)
+		number(path, 3, int64(f.GetNumber()), what)
+	}
+	var enum func(path []int32, e *descriptorpb.EnumDescriptorProto)
+	enum = func(path []int32, e *descriptorpb.EnumDescriptorProto) {
+		what := "enum " + e.GetName()
+		if one(path, what) == nil {
+			return
+		}
+		name(path, 1, e.GetName(), what, false)
+		for i, v := range e.Value {
+			vp := append(append([]int32{}, path...), 2, int32(i))
+			if one(vp, "enum value "+v.GetName()) == nil {
+				continue
+			}
+			name(vp, 1, v.GetName(), "enum value "+v.GetName(), false)
+			number(vp, 2, int64(v.GetNumber()), "enum value "+v.GetName())
+		}
+	}
+	var msg func(path []int32, m *descriptorpb.DescriptorProto)
+	msg = func(path []int32, m *descriptorpb.DescriptorProto) {
+		if m.GetOptions().GetMapEntry() {
+			return
+		}
+		what := "message " + m.GetName()
+		if one(path, what) == nil {
+			return
+		}
+		name(path, 1, m.GetName(), what, false)
+		for i, f := range m.Field {
+			field(append(append([]int32{}, path...), 2, int32(i)), f, "field "+m.GetName()+"."+f.GetName())
+		}
+		for i, f := range m.Extension {
+			field(append(append([]int32{}, path...), 6, int32(i)), f, "extension "+m.GetName()+"."+f.GetName())
+		}
+		for i, n := range m.NestedType {
+			msg(append(append([]int32{}, path...), 3, int32(i)), n)
+		}
+		for i, e := range m.EnumType {
+			enum(append(append([]int32{}, path...), 4, int32(i)), e)
+		}
+		for i, o := range m.OneofDecl {
+			if isSynthetic(m, int32(i)) {
+				continue
+			}
+			op := append(append([]int32{}, path...), 8, int32(i))
+			if one(op, "oneof "+o.GetName()) != nil {
+				name(op, 1, o.GetName(), "oneof "+o.GetName(), false)
+			}
+		}
+	}
+	for i, m := range fd.MessageType {
+		msg([]int32{4, int32(i)}, m)
+	}
+	for i, e := range fd.EnumType {
+		enum([]int32{5, int32(i)}, e)
+	}
+	for i, f := range fd.Extension {
+		field([]int32{7, int32(i)}, f, "extension "+f.GetName())
+	}
+	for i, sv := range fd.Service {
+		sp := []int32{6, int32(i)}
+		if one(sp, "service "+sv.GetName()) == nil {
+			continue
+		}
+		name(sp, 1, sv.GetName(), "service "+sv.GetName(), false)
+		for j, m := range sv.Method {
+			mp := []int32{6, int32(i), 2, int32(j)}
+			if one(mp, "method "+m.GetName()) != nil {
+				name(mp, 1, m.GetName(), "method "+m.GetName(), false)
+			}
+		}
+	}
+	return bad
+}
+
+func isSynthetic(m *descriptorpb.DescriptorProto, idx int32) bool {
+	n := 0
+	syn := false
+	for _, f := range m.Field {
+		if f.OneofIndex != nil && f.GetOneofIndex() == idx {
+			n++
+			syn = f.GetProto3Optional()
+		}
+	}
+	return n == 1 && syn
 }
 
 func shiftSCI(info *descriptorpb.SourceCodeInfo, dLine int32, dCol int32) *descriptorpb.SourceCodeInfo {
@@ -173,7 +357,8 @@ func TestC03(t *testing.T) {
 	r.Extra("rule", "(a) the three files of protoc's source_info.protoset compiled with SourceInfoStandard and compared location by location (path, span, comments, order) after the project's two issue-10478 corrections; "+
 		"(b) the same files with n blank lines prepended (n in {1,2,5,17}) and with every line indented by k columns (k in {1,3,8,16}; multiples of 8 only when a line has tabs), expected = protoc's list shifted; "+
 		"(c) generated models rendered canonically, compiled without comments (baseline), then with comments carrying unique ids inserted at randomly chosen single-line declarations in the documented placements "+
-		"(leading, trailing on the same line, trailing on the next lines, detached paragraphs, block-comment variants), expected = baseline with lines shifted and exactly those comments attached. "+
+		"(leading, trailing on the same line, trailing on the next lines before a blank line / the closing brace / the end of the file, detached paragraphs, block-comment variants), expected = baseline with lines shifted and exactly those comments attached; "+
+		"independently of that baseline, the name and number locations of every message, field, enum, value, oneof, extension, service and method must cover exactly the token spelling that name/number. "+
 		"non-trivial = file with >=1 comment compared; distinct = distinct source text")
 	r.Extra("assumptions", []string{
 		"source_info.protoset is protoc's answer for the three recorded files",
@@ -279,13 +464,33 @@ func TestC03(t *testing.T) {
 			if name == "opts/options.proto" {
 				continue
 			}
-			base, out := compileSCI(src, name)
-			if base == nil {
+			frng := rng.Fork(name)
+			text := src[name]
+			// a third of the files get a last declaration that ends in ';' so that the end-of-file placement exists
+			eofDecl := false
+			if frng.Chance(0.33) && !strings.Contains(text, "google/protobuf/empty.proto") {
+				text = strings.TrimRight(text, "\n") + "\nimport \"google/protobuf/empty.proto\";\n"
+				eofDecl = true
+			}
+			s1 := map[string]string{}
+			for k2, v2 := range src {
+				s1[k2] = v2
+			}
+			s1[name] = text
+			baseFD, out := compileFD(s1, name)
+			if baseFD == nil {
 				_ = out
 				r.Class("skipped:rejected (decided by C01)")
 				continue
 			}
-			commented, expect, ncomments := injectDocumentedComments(rng.Fork(name), src[name], base)
+			base := baseFD.GetSourceCodeInfo()
+			if d := checkNameSpans(baseFD, text); d != "" {
+				r.Eval(text)
+				r.Violation("c03.path-does-not-address-element", strings.SplitN(d, ":", 2)[0][:strings.IndexAny(d+" ", " ")], id+"/"+name, map[string]any{"file": name, "source": text, "difference": d})
+				continue
+			}
+			r.Class("name/number tokens checked")
+			commented, expect, ncomments := injectDocumentedComments(frng, text, base, eofDecl)
 			if ncomments == 0 {
 				continue
 			}
@@ -316,7 +521,7 @@ func TestC03(t *testing.T) {
 
 // injectDocumentedComments inserts comments around randomly chosen single-line declarations and
 // returns the new text, the expected source code info, and how many comments were placed.
-func injectDocumentedComments(rng *vlib.RNG, text string, base *descriptorpb.SourceCodeInfo) (string, *descriptorpb.SourceCodeInfo, int) {
+func injectDocumentedComments(rng *vlib.RNG, text string, base *descriptorpb.SourceCodeInfo, eofDecl bool) (string, *descriptorpb.SourceCodeInfo, int) {
 	lines := strings.Split(strings.TrimRight(text, "\n"), "\n")
 	// declaration locations by start line: the location that starts at the first non-blank column of a
 	// line and whose span is the widest among those starting there (the declaration itself).
@@ -369,8 +574,16 @@ func injectDocumentedComments(rng *vlib.RNG, text string, base *descriptorpb.Sou
 	ctr := 0
 	id := func() string { ctr++; return fmt.Sprintf("c%d", ctr) }
 	n := 0
-	for sl, d := range decls {
-		if !rng.Chance(0.35) {
+	noFinalNewline := false
+	sls := make([]int, 0, len(decls))
+	for sl := range decls {
+		sls = append(sls, sl)
+	}
+	sort.Ints(sls)
+	for _, sl := range sls {
+		d := decls[sl]
+		atEOF := eofDecl && sl == len(lines)-1
+		if !atEOF && !rng.Chance(0.35) {
 			continue
 		}
 		// do not comment two adjacent lines: a trailing comment of one and a leading comment of the next would interact
@@ -417,9 +630,24 @@ func injectDocumentedComments(rng *vlib.RNG, text string, base *descriptorpb.Sou
 			// a blank line in front keeps the first comment from being the trailing comment of the previous declaration
 			p.before = append([]string{""}, p.before...)
 		}
-		if rng.Chance(0.5) {
+		if atEOF || rng.Chance(0.5) {
 			c := id()
+			nextCloses := sl+1 < len(lines) && strings.TrimSpace(lines[sl+1]) == "}"
 			switch {
+			case atEOF:
+				// the comment on the line after the last declaration, with the end of the file right behind it
+				// (where a scope ends there is nothing else the comment could belong to)
+				p.after = append(p.after, indent+"// "+c)
+				noFinalNewline = rng.Bool()
+				if noFinalNewline {
+					loc.TrailingComments = proto.String(" " + c) // the comment text ends where the file ends
+				} else {
+					loc.TrailingComments = proto.String(" " + c + "\n")
+				}
+			case d.single && nextCloses && rng.Chance(0.5):
+				// same at the end of a block: the next token is the closing brace
+				p.after = append(p.after, indent+"// "+c)
+				loc.TrailingComments = proto.String(" " + c + "\n")
 			case d.single && rng.Chance(0.4):
 				p.sameLine = " // " + c
 				loc.TrailingComments = proto.String(" " + c + "\n")
@@ -476,6 +704,9 @@ func injectDocumentedComments(rng *vlib.RNG, text string, base *descriptorpb.Sou
 				l.Span[2] += shift[el]
 			}
 		}
+	}
+	if noFinalNewline {
+		return strings.Join(out, "\n"), exp, n
 	}
 	return strings.Join(out, "\n") + "\n", exp, n
 }
